@@ -82,6 +82,7 @@ type c50Op struct {
 	trace              []*c50Event
 	states             map[string]*c50RetryState
 	mustEnd            string
+	ends               int
 	res                any
 	err                error
 	panicked           string
@@ -113,6 +114,7 @@ type c50RetryState struct {
 	lastStatus     int
 	lastRetryAfter string
 	why            string
+	endsSeen       int
 }
 
 type opKeyT struct{}
@@ -433,6 +435,9 @@ func (s *c50Server) RoundTrip(req *http.Request) (*http.Response, error) {
 		if st != nil && st.phase != "stopped" {
 			st.phase, st.n = "", 0 // that call is over
 		}
+		if step == "head" {
+			op.endPendingCalls()
+		}
 		return nil, err
 	}
 
@@ -484,6 +489,9 @@ func (s *c50Server) RoundTrip(req *http.Request) (*http.Response, error) {
 			if st != nil {
 				st.phase, st.n = "", 0
 			}
+			if step == "head" {
+				op.endPendingCalls()
+			}
 			return nil, context.Canceled
 		}
 		evn.Kind = "cancel-reply/"
@@ -495,6 +503,9 @@ func (s *c50Server) RoundTrip(req *http.Request) (*http.Response, error) {
 		evn.NoReply = true
 		if st != nil {
 			st.phase, st.n = "", 0 // the call is over (transport errors are not retried); the result oracle covers the rest
+		}
+		if step == "head" {
+			op.endPendingCalls()
 		}
 		return nil, errors.New("verif: connection reset by scripted peer")
 	}
@@ -513,6 +524,9 @@ func (s *c50Server) RoundTrip(req *http.Request) (*http.Response, error) {
 			h.Del("Content-Type")
 		}
 		evn.OK = spec.Nonce
+		if !evn.OK {
+			op.endPendingCalls()
+		}
 	case spec.Kind == "ok":
 		code, h, rbody, evn.Want = s.okReply(op, step, spec.V)
 		evn.OK = true
@@ -548,6 +562,12 @@ func (s *c50Server) RoundTrip(req *http.Request) (*http.Response, error) {
 	return c50Resp(req, code, h, rbody), nil
 }
 
+// endPendingCalls notes that a nonce fetch failed: that ends the post() call it
+// was made for -- unless the failure is swallowed (implicit account lookup,
+// first of two nonce URLs).  The monitor cannot tell which call that was, so a
+// retry counter may legitimately start again at 1 afterwards.
+func (op *c50Op) endPendingCalls() { op.ends++ }
+
 const c50LongWait = 2 * time.Second
 
 // backoff is the injected Client.RetryBackoff.
@@ -578,6 +598,10 @@ func (s *c50Server) backoff(n int, r *http.Request, res *http.Response) time.Dur
 		s.violate("op%d %s: RetryBackoff consulted for %s without a failed attempt pending (phase %q)", op.id, op.Kind, key, st.phase)
 		return 0
 	}
+	if n == 1 && st.phase == "may-retry" && op.ends > st.endsSeen {
+		st.n = 0 // a fresh call after one that ended without a reply on this URL
+	}
+	st.endsSeen = op.ends
 	if n != st.n+1 {
 		s.violate("op%d %s: RetryBackoff n=%d for %s, documented sequence expects %d (first failure is 1)", op.id, op.Kind, n, key, st.n+1)
 	}
@@ -824,6 +848,20 @@ func c50Expect(op *c50Op, cachedWebsite string) error {
 	if op.cancelled && errors.Is(err, context.Canceled) {
 		return nil
 	}
+	if (op.Kind == "UpdateReg" || op.Kind == "DeactivateReg") && err == xacme.ErrNoAccount {
+		// Documented outcome when the account URL cannot be determined: the implicit
+		// lookup (nonce fetch + onlyReturnExisting request) failed for whatever reason
+		// and the account resource itself was never addressed.
+		lookup, addressed := false, false
+		for _, e := range op.trace {
+			lookup = lookup || e.Step == "getReg" || e.Step == "head"
+			addressed = addressed || e.Step == "acct" || (e.Step == "getReg" && e.OK && !e.Garbage && !e.NoReply)
+		}
+		if lookup && !addressed {
+			return nil
+		}
+		return fmt.Errorf("ErrNoAccount although the account was known: %s", desc())
+	}
 	L := op.trace[len(op.trace)-1]
 	var ae *xacme.Error
 	isACME := errors.As(err, &ae)
@@ -838,17 +876,11 @@ func c50Expect(op *c50Op, cachedWebsite string) error {
 	}
 	switch {
 	case L.NoReply && (L.Kind == "ctx-rejected" || L.Kind == "cancel-err"):
-		if (op.Kind == "UpdateReg" || op.Kind == "DeactivateReg") && L.Step == "getReg" && err == xacme.ErrNoAccount {
-			return nil
-		}
 		if !errors.Is(err, context.Canceled) {
 			return fmt.Errorf("want a context.Canceled error: %s", desc())
 		}
 		return nil
 	case L.NoReply: // drop
-		if (op.Kind == "UpdateReg" || op.Kind == "DeactivateReg") && L.Step == "getReg" && err == xacme.ErrNoAccount {
-			return nil
-		}
 		if err == nil || isACME {
 			return fmt.Errorf("want a transport error after the connection was dropped: %s", desc())
 		}
@@ -856,9 +888,6 @@ func c50Expect(op *c50Op, cachedWebsite string) error {
 	case L.Step == "head":
 		if L.OK {
 			return fmt.Errorf("the operation ended right after obtaining a nonce: %s", desc())
-		}
-		if (op.Kind == "UpdateReg" || op.Kind == "DeactivateReg") && err == xacme.ErrNoAccount {
-			return nil // the implicit account lookup failed for want of a nonce
 		}
 		if err == nil {
 			return fmt.Errorf("want an error (no nonce obtainable): %s", desc())
@@ -876,10 +905,7 @@ func c50Expect(op *c50Op, cachedWebsite string) error {
 			return nil
 		}
 		if L.Step == "getReg" && (op.Kind == "UpdateReg" || op.Kind == "DeactivateReg") {
-			if err != xacme.ErrNoAccount {
-				return fmt.Errorf("want ErrNoAccount (account lookup failed): %s", desc())
-			}
-			return nil
+			return fmt.Errorf("want ErrNoAccount (account lookup failed): %s", desc())
 		}
 		if L.Step == "getReg" && op.Kind == "GetReg" && L.ProbType == "urn:ietf:params:acme:error:accountDoesNotExist" {
 			if err != xacme.ErrNoAccount {
